@@ -85,7 +85,8 @@ func checkPure(c pureCase) string {
 		texts[i] = textCase{Text: q}.text()
 	}
 	trees := make([]*formula.SourceCode, n)
-	dumps := make([]string, n)
+	dumps := make([]string, n)  // full dump (ids, parent links) of the pooled tree: must never change
+	shapes := make([]string, n) // shape + values + ranges: what every re-parse must reproduce
 	firstEval := map[[2]int]evalRecord{}
 	firstFields := map[int]string{}
 	parse := func(i int) string {
@@ -97,11 +98,12 @@ func checkPure(c pureCase) string {
 			return fmt.Sprintf("HARNESS: pool text %q does not parse: %v", texts[i], p.Err)
 		}
 		d := obs.DumpFull(p.Src.Expression) + fmt.Sprintf("|nodes=%d idents=%d eof=[%d,%d)", p.Src.NodeCount, p.Src.IdentifierCount, p.Src.EndOfFileToken.Pos(), p.Src.EndOfFileToken.End())
-		if dumps[i] != "" && d != dumps[i] {
-			return fmt.Sprintf("parsing %q twice gives different trees:\n%s\n%s", texts[i], dumps[i], d)
+		sh := obs.DumpRanges(p.Src.Expression) + fmt.Sprintf("|nodes=%d idents=%d", p.Src.NodeCount, p.Src.IdentifierCount)
+		if shapes[i] != "" && sh != shapes[i] {
+			return fmt.Sprintf("parsing %q twice gives different trees:\n%s\n%s", texts[i], shapes[i], sh)
 		}
 		if trees[i] == nil {
-			trees[i], dumps[i] = p.Src, d
+			trees[i], dumps[i], shapes[i] = p.Src, d, sh
 		}
 		return ""
 	}
